@@ -30,8 +30,36 @@ func runC11(rc *RunCtx) {
 	for i := 0; i < nRU; i++ {
 		retU = append(retU, fmt.Sprintf(mainAddrs[G.Draw(2)], 9050+i))
 	}
+	// In a quarter of the runs the retained addresses are those of the legacy
+	// key-per-port format instead (one or two ports, TCP and UDP each).
+	legacyPorts := 0
+	if G.Draw(4) == 0 {
+		legacyPorts = 1 + G.Draw(2)
+		retT, retU = nil, nil
+		for i := 0; i < legacyPorts; i++ {
+			retT = append(retT, fmt.Sprintf(":%d", 9100+i))
+			retU = append(retU, fmt.Sprintf(":%d", 9100+i))
+		}
+		simrt.Probe("retained_addresses_in_the_legacy_format")
+	}
 	mkCfg := func(v int) *mCfg {
 		c := &mCfg{}
+		if legacyPorts > 0 {
+			for i := 0; i < legacyPorts; i++ {
+				for _, k := range both {
+					c.Legacy = append(c.Legacy, mLegacy{9100 + i, k})
+				}
+				for _, k := range extra {
+					if G.Draw(2) == 0 {
+						c.Legacy = append(c.Legacy, mLegacy{9100 + i, k})
+					}
+				}
+			}
+			if G.Draw(2) == 0 {
+				c.Services = append(c.Services, mSvc{Listeners: []mLn{{"tcp", fmt.Sprintf("127.0.0.1:%d", 9200+v)}, {"udp", fmt.Sprintf("127.0.0.1:%d", 9200+v)}}, Keys: append([]*Key(nil), extra[:1+G.Draw(len(extra))]...)})
+			}
+			return c
+		}
 		// the retained listeners may move between services from version to version,
 		// but always keep the common keys
 		var sv mSvc
@@ -346,7 +374,7 @@ func runC11(rc *RunCtx) {
 				// another process holds. It must fail and leave the retained listeners
 				// bound and serving all the way through (the clients keep coming).
 				doomed := *cfgs[v]
-				doomed.Services = append(append([]mSvc(nil), cfgs[v].Services...), mSvc{Listeners: []mLn{{"tcp", "127.0.0.1:9777"}}, Keys: cfgs[v].Services[0].Keys})
+				doomed.Services = append(append([]mSvc(nil), cfgs[v].Services...), mSvc{Listeners: []mLn{{"tcp", "127.0.0.1:9777"}}, Keys: both})
 				if fl, err := simnet.ListenTCP("tcp", &net.TCPAddr{IP: net.IPv4(127, 0, 0, 1).To4(), Port: 9777}); err == nil {
 					fl.Foreign = true
 					// (whether it must fail is C10's claim, not C11's)
@@ -375,7 +403,7 @@ func runC11(rc *RunCtx) {
 		// it is "present in both configurations" of this reload, so it authenticates
 		// throughout, whichever generation takes the connection (all the earlier
 		// ones are long stopped).
-		if reloadErr == nil && G.Draw(2) == 0 {
+		if reloadErr == nil && legacyPorts == 0 && G.Draw(2) == 0 {
 			last := cfgs[nVer-1]
 			var cand []*Key
 			for _, k := range last.Services[0].Keys {
